@@ -281,7 +281,7 @@ func checkC15(run *rt.Run, r *frun) bool {
 			}
 		}
 		switch st.Op.Kind {
-		case "write":
+		case "write", "emptywrite":
 			if st.Err != nil {
 				// an unacknowledged write: nothing is claimed about it; the sink closed its file, the next
 				// write opens again (seen with an external rename that is not followed by Reopen).
